@@ -39,7 +39,12 @@ Record eobs := mkEobs { o_inmap : bool; o_ectx : bool; o_hits : Z }.
    in the map BEFORE that sync done now *)
 Record clobs := mkClobs { o_resolves : list bool; o_cctx : bool; o_eps : list eobs; o_pre : list (list (bool * bool)) }.
 
-Definition bound_ms : Z := 2000.
+(* "promptly": a measurement against a generous bound.  A request that is NOT cut stays open (the stub
+   upstreams hold connecting requests and keep streams going until the harness lets them finish, 20 s
+   after the removal at the earliest), so a hang is caught by inflight_cut; the bound only has to separate
+   "cut by the cancellation" from that, on a machine that may be heavily loaded.  Typical values are a few
+   ms (see the cut-latency histogram in the evidence). *)
+Definition bound_ms : Z := 10000.
 
 (* global number of endpoint e of cluster ci *)
 Fixpoint offset (cls : list scl) (ci : nat) : Z :=
@@ -131,8 +136,10 @@ Definition ctx_done_cl (act : saction) (ci : nat) (c : clobs) : bool :=
 (* clause 3: promptly (a measurement against a generous bound) *)
 Definition prompt_req (cls : list scl) (act : saction) (q : sreq) (o : robs) : bool :=
   if is_victim cls act q o then
-    (o_endms o <=? bound_ms)
-    && match qph q with QConnecting | QStreaming => o_upms o <=? bound_ms | _ => true end
+    match qph q with
+    | QConnecting | QStreaming => (o_endms o <=? bound_ms) && (o_upms o <=? bound_ms)
+    | _ => true    (* a request that was not forwarded yet has nothing to be cut; when it ends depends on the harness *)
+    end
   else true.
 
 (* clause 4: probing of it stops; removed endpoints are out of the pick set *)
